@@ -218,6 +218,9 @@ class Ctx:
 # anchor coverage: which of the property's anchored functions were executed (sys.monitoring)
 # --------------------------------------------------------------------------------------------
 
+COVERAGE = None     # the shard's FunctionCoverage (forked children report into it)
+
+
 class FunctionCoverage:
     TOOL = 3
 
